@@ -10,7 +10,7 @@ usage: seedeval.py <worktree> <seed-name> <property> [more properties to run...]
 import json, os, subprocess, sys, shutil, glob, time
 
 ENV = dict(os.environ, GOFLAGS="-mod=mod", GOPROXY="off", GOSUMDB="off", GOTOOLCHAIN="local")
-TESTS = "go test -vet=off -count=1 ./codec/... ./socket ./utils/... ./xfer/gzip/... ./mixer/websocket/websocket/..."
+TESTS = "go test -vet=off -count=1 -skip TestSeedDemo ./codec/... ./socket ./utils/... ./xfer/gzip/... ./mixer/websocket/websocket/..."
 
 def sh(cmd, cwd, timeout=1800):
     p = subprocess.run(cmd, shell=True, cwd=cwd, env=ENV, capture_output=True, text=True, timeout=timeout)
